@@ -507,6 +507,12 @@ class BGP(protocol.Protocol):
         if self.fsm.bgp_peering.peer_asn != open_msg.asn:
             raise excep.OpenMessageError(sub_error=bgp_cons.ERR_MSG_OPEN_BAD_PEER_AS)
 
+        if self.fsm.state in (bgp_cons.ST_OPENCONFIRM, bgp_cons.ST_ESTABLISHED):
+            # an OPEN has already been accepted on this connection: only the
+            # FSM reacts (ignore / FSM error), nothing is negotiated again
+            self.fsm.open_received()
+            return
+
         # Open message Capabilities negotiation
         cfg.CONF.bgp.running_config['capability']['remote'] = open_msg.capa_dict
         LOG.info("[%s]A BGP Open message was received", self.factory.peer_addr)
